@@ -59,6 +59,24 @@ macro_rules! flags {
 /// formatting is a repeated long division).
 pub fn matrix<T: Display + Binary + Octal + LowerHex + UpperHex>(v: &T, w: usize, dec_all: bool) -> Vec<(&'static str, String)> {
     let mut out: Vec<(&'static str, String)> = Vec::with_capacity(560);
+    if w == usize::MAX - 2 {
+        // padded set for very long vectors: flags and padding with a width beyond the digit
+        // count (linear cost; the width is derived from the binary digit count)
+        let bd = format!("{:b}", v).len();
+        // (std limits a width argument to u16::MAX)
+        for wd in [(bd + 9).min(65535), (bd / 4 + 3).min(65535)] {
+            out.push(("{:#0w$b}", format!("{:#0w$b}", v, w = wd)));
+            out.push(("{:+0w$b}", format!("{:+0w$b}", v, w = wd)));
+            out.push(("{:<#w$b}", format!("{:<#w$b}", v, w = wd)));
+            out.push(("{:0w$o}", format!("{:0w$o}", v, w = wd)));
+            out.push(("{:+#0w$o}", format!("{:+#0w$o}", v, w = wd)));
+            out.push(("{:#0w$x}", format!("{:#0w$x}", v, w = wd)));
+            out.push(("{:>+w$x}", format!("{:>+w$x}", v, w = wd)));
+            out.push(("{:*^#w$X}", format!("{:*^#w$X}", v, w = wd)));
+            out.push(("{:+0w$X}", format!("{:+0w$X}", v, w = wd)));
+        }
+        return out;
+    }
     if w >= usize::MAX - 1 {
         // minimal set for very long vectors (decimal is a repeated long division in bva, so it
         // can be left out: w == usize::MAX - 1)
@@ -134,7 +152,7 @@ impl Property for C14 {
         "C14"
     }
     fn rule(&self) -> String {
-        "Cases: (vector of any zoo type/length/provenance, width argument). A fixed matrix of 560 literal format specifications ({}, {:b}, {:o}, {:x}, {:X} x flags {none,+,#,0,+#,#0,+0,+#0} x fill/alignment {none,<,^,>,*<,_^,0>} x {no width, runtime width}) is applied to the vector and to the oracle integer and compared string by string (for lengths above 128 bits decimal is limited to 4 specifications because bva formats decimal by repeated long division). Oracle: std u128 formatting up to 128 bits, num-bigint BigUint above; in the same run BigUint is compared with u128 on every <=128-bit case, so the wide oracle's flag handling is itself validated against std. Metamorphic: zero-extending the value and converting it to other implementations leaves every string unchanged. Widths: 0, digits-1, digits, digits+1, digits+3, 50. Enumerated: all values n<=10 (quick)/14 (thorough) on the 1- and 2-word types and Bvd/Bv; 2^k, 2^k-1 and 0 for every k<=min(C,320). Non-trivial: the value has fewer digits than the length suggests (leading zero digit groups), or is zero with n>0, or n=0, or exceeds 2^64. Distinct by hash of the case.".into()
+        "Cases: (vector of any zoo type/length/provenance, width argument). A fixed matrix of 560 literal format specifications ({}, {:b}, {:o}, {:x}, {:X} x flags {none,+,#,0,+#,#0,+0,+#0} x fill/alignment {none,<,^,>,*<,_^,0>} x {no width, runtime width}) is applied to the vector and to the oracle integer and compared string by string (for lengths above 128 bits decimal is limited to 4 specifications because bva formats decimal by repeated long division). Oracle: std u128 formatting up to 128 bits, num-bigint BigUint above; in the same run BigUint is compared with u128 on every <=128-bit case, so the wide oracle's flag handling is itself validated against std. Metamorphic: zero-extending the value and converting it to other implementations leaves every string unchanged. Widths: 0, digits-1, digits, digits+1, digits+3, 50. Vectors above 400 bits use a minimal set ({:b},{:o},{:x},{:#X}, with or without {}) or a padded set (9 specifications combining #,+,0, fill and alignment with widths beyond the binary and the hex digit count). Enumerated: all values n<=10 (quick)/14 (thorough) on the 1- and 2-word types and Bvd/Bv; 2^k, 2^k-1 and 0 for every k<=min(C,320). Non-trivial: the value has fewer digits than the length suggests (leading zero digit groups), or is zero with n>0, or n=0, or exceeds 2^64. Distinct by hash of the case.".into()
     }
     fn random_cases(&self, tier: Tier) -> u64 {
         tier.pick(40000, 1500000)
@@ -153,7 +171,7 @@ impl Property for C14 {
             // decimal on very long vectors is slow in bva: above 400 bits only the minimal
             // specification set is used (width == usize::MAX selects it)
             let digits = (a.bits.significant().max(1) + 3) / 4;
-            let width = if no_dec { usize::MAX - 1 } else if a.len() > 400 { usize::MAX } else { [0, digits.saturating_sub(1), digits, digits + 1, digits + 3, 50][wsel] };
+            let width = if no_dec || (a.ty == TID_HUGE && a.len() > 400) { usize::MAX - 1 - (wsel % 2) } else if a.len() > 400 { usize::MAX } else { [0, digits.saturating_sub(1), digits, digits + 1, digits + 3, 50][wsel] };
             C14Case { a, width }
         }).boxed()
     }
@@ -216,12 +234,17 @@ impl Property for C14 {
         for t in FIXED_TIDS {
             let c = fixed_cap(t).unwrap();
             for len in 0..=c {
+                // the 70 400-bit type: every length up to 130, then a stride and the neighbourhood
+                // of every 4096-bit boundary (decimal costs a long division per digit there)
+                if t == TID_HUGE && len > 130 && len % 509 != 0 && (len + 2) % 4096 > 4 && len + 3 < c {
+                    continue;
+                }
                 if !sh.mine() {
                     continue;
                 }
                 for a in [Bits::ones(len), realize_val(&ValPat::Dense(vec![0x9E37_79B9_7F4A_7C15, 0xD1B5_4A32_D192_ED03, 0x0123_4567_89AB_CDEF]), len, 64)] {
                     let digits = (a.significant().max(1) + 3) / 4;
-                    let width = if len > 400 { usize::MAX - 1 } else if len > 128 { digits + 2 } else { 0 };
+                    let width = if len > 400 { usize::MAX - 1 - (len % 2) } else if t == TID_HUGE && len > 64 { usize::MAX - 1 } else if len > 128 { digits + 2 } else { 0 };
                     if !f(C14Case { a: Operand::canon(t, a), width }) {
                         return;
                     }
@@ -243,14 +266,31 @@ impl Property for C14 {
                 }
                 let mut hot = Bits::zeros(kk);
                 hot.0[kk - 1] = true;
-                for a in [Bits::ones(kk), hot, realize_val(&ValPat::Dense(vec![0x9E37_79B9_7F4A_7C15, 0xD1B5_4A32_D192_ED03, 0x0123_4567_89AB_CDEF]), kk, 64)] {
-                    if !f(C14Case { a: Operand::canon(t, a), width: usize::MAX - 1 }) {
+                for (j, a) in [Bits::ones(kk), hot, realize_val(&ValPat::Dense(vec![0x9E37_79B9_7F4A_7C15, 0xD1B5_4A32_D192_ED03, 0x0123_4567_89AB_CDEF]), kk, 64)].into_iter().enumerate() {
+                    // flags and padding beyond the digit count on one of the three values
+                    if !f(C14Case { a: Operand::canon(t, a), width: if j == kk % 3 { usize::MAX - 2 } else { usize::MAX - 1 } }) {
                         return;
                     }
                 }
             }
         }
-        for t in 0..NT {
+        // binary / octal / hex on a geometric ladder of lengths up to megabits (Bvd, Bv)
+        for (t, n) in ladder_lengths(tier) {
+            if n < 66_000 {
+                continue;
+            }
+            if !sh.mine() {
+                continue;
+            }
+            let mut small_in_long = Bits::from_u128(0xdead_beef, n);
+            small_in_long.0[n / 2 + 1] = true;
+            for (j, a) in [dense_value(n), small_in_long, Bits::ones(n)].into_iter().enumerate() {
+                if !f(C14Case { a: Operand::canon(t, a), width: if j == n % 3 { usize::MAX - 2 } else { usize::MAX - 1 } }) {
+                    return;
+                }
+            }
+        }
+        for t in ROUTINE_TIDS {
             let c = fixed_cap(t).unwrap_or(320);
             for kk in 0..=c {
                 if !sh.mine() {
@@ -278,10 +318,12 @@ impl Property for C14 {
         let what = format!("format:{}", kind_of(a.ty));
         let za = build_checked(a, "subject")?;
         let n = a.len();
-        if n > 400 && *width < usize::MAX - 1 {
+        if n > 400 && *width < usize::MAX - 2 {
             crate::fail!("bad-case", "vectors longer than 400 bits use the minimal specification set");
         }
-        let dec_all = n <= 128;
+        // (decimal in every specification only where it is cheap: not on the 70 400-bit type,
+        // whose long division walks 1100 words per step)
+        let dec_all = n <= 128 && a.ty != TID_HUGE;
         let got = match catch(|| z_match!(&za, v => matrix(v, *width, dec_all))) {
             Ok(g) => g,
             Err(p) => fail!(format!("{}/panic", what), "formatting {} panicked: {}", a.describe(), p),
